@@ -48,6 +48,8 @@ class SymAPI(object):
     def int(self, name, lo, hi, bv=0):
         self._name(name)
         if bv:
+            from symx import symstr
+            symstr.WIDTH = bv      # integers flowing through the codec tables use this width
             e = z3.BitVec(name, bv)
             v = SymInt(e, bv)
             self.p.assume(z3.And(z3.UGE(e, z3.BitVecVal(lo, bv)), z3.ULE(e, z3.BitVecVal(hi, bv))))
